@@ -3,7 +3,9 @@ package rules
 import (
 	"fmt"
 	"go/types"
+	"sort"
 	"strings"
+	"verif/tool/load"
 
 	"golang.org/x/tools/go/ssa"
 
@@ -22,6 +24,7 @@ type attachSite struct {
 	RAMOffset  uint64
 	Pos        string
 	Desc       string
+	Dyn        types.Type // dynamic type of a backend that is not a RAM over the System's arrays
 }
 
 func C11(ctx *Ctx) {
@@ -31,6 +34,7 @@ func C11(ctx *Ctx) {
 	R.Rule("attach-model", "every Attach call of CreateEmulator has constant, 16-byte- and page-aligned bounds and a backend that is a RAM over a constant sub-slice of ROM/SRAM/WRAM or the I/O stub; CreateEmulator is interpretable along one path")
 	R.Rule("agree", "for every 8 KiB page backed by ROM/SRAM/WRAM in the emulator and mapped by the LoROM mapper: same memory class and same linear position; a page the emulator backs with anything else (I/O stub) is one the mapper leaves unmapped")
 	R.Rule("ram", "memory.RAM.Read/Write access data[address-offset], the same cell for the same address")
+	R.Rule("io-stub", "a backend that is not one of the System's memories (the I/O stub) serves every address it is attached for without an out-of-range index")
 	sysT := ctx.Prog.Pkg("emulator").Type("System")
 	fn := ctx.Prog.Method("emulator", "System", "CreateEmulator")
 	attach := ctx.Prog.Method("emulator/bus", "Bus", "Attach")
@@ -66,6 +70,7 @@ func C11(ctx *Ctx) {
 		site.Start, site.End = uint32(sc), uint32(ec)
 		if ifc, ok := a[1].(*absint.Iface); ok && ifc.Dyn != nil {
 			site.Desc = ifc.Dyn.String()
+			site.Dyn = ifc.Dyn
 			if sv, ok := ifc.V.(*absint.Struct); ok && strings.HasSuffix(ifc.Dyn.String(), "memory.RAM") {
 				var sl *absint.Slice
 				var off *absint.Int
@@ -202,6 +207,7 @@ func C11(ctx *Ctx) {
 		R.Pass("agree", "all-pages", pos, fmt.Sprintf("%d pages backed by ROM/SRAM/WRAM and mapped by LoROM: same class, same linear position", nBoth))
 	}
 	// ---- memory.RAM
+	checkIOStubs(ctx, sites)
 	ramT := ctx.Prog.Pkg("emulator/memory").Type("RAM")
 	if ramT == nil {
 		R.Fail("ram", "RAM", "", "memory.RAM not found")
@@ -320,6 +326,96 @@ func C11(ctx *Ctx) {
 			R.Fail("ram", "index", "", fmt.Sprintf("Read indexes data[%s], Write indexes data[%s]; want data[address-offset] in both", keys[0], keys[1]))
 		} else {
 			R.Pass("ram", "memory.RAM", "", "Read and Write access data[address-offset]")
+		}
+	}
+}
+
+// checkIOStubs: per dynamic type of the other backends, the offsets inside a bank they are attached for; Read and
+// Write are interpreted for an address bank<<16 | offset with the offset anywhere in that range and must return
+// without a possibly-out-of-range array index.
+func checkIOStubs(ctx *Ctx, sites []attachSite) {
+	R := ctx.R
+	type rng struct {
+		lo, hi uint32
+		t      types.Type
+		pos    string
+	}
+	byType := map[string]*rng{}
+	for _, st := range sites {
+		if st.Kind != "other" || st.Dyn == nil {
+			continue
+		}
+		if st.Start>>16 != st.End>>16 {
+			R.Fail("io-stub", st.Dyn.String()+":range", st.Pos, fmt.Sprintf("attached across banks ($%06X-$%06X): not judged", st.Start, st.End))
+			continue
+		}
+		k := st.Dyn.String()
+		lo, hi := st.Start&0xFFFF, st.End&0xFFFF
+		if r := byType[k]; r == nil {
+			byType[k] = &rng{lo, hi, st.Dyn, st.Pos}
+		} else {
+			if lo < r.lo {
+				r.lo = lo
+			}
+			if hi > r.hi {
+				r.hi = hi
+			}
+		}
+	}
+	var names []string
+	for k := range byType {
+		names = append(names, k)
+	}
+	sort.Strings(names)
+	R.Count("io-stub-types", len(names))
+	for _, k := range names {
+		r := byType[k]
+		ms := ctx.Prog.SSA.MethodSets.MethodSet(r.t)
+		for _, mn := range []string{"Read", "Write"} {
+			var fn *ssa.Function
+			for i := 0; i < ms.Len(); i++ {
+				if ms.At(i).Obj().Name() == mn {
+					fn = ctx.Prog.SSA.MethodValue(ms.At(i))
+				}
+			}
+			key := strings.TrimPrefix(k, "*"+load.ModulePath+"/") + "." + mn
+			if fn == nil {
+				R.Fail("io-stub", key, r.pos, "method not found")
+				continue
+			}
+			ip := absint.New()
+			ip.UnrollLoops = true
+			ip.TraceDyn = true
+			var recv absint.Val
+			if pt, isPtr := r.t.Underlying().(*types.Pointer); isPtr {
+				recv = &absint.Ptr{Nil: absint.TriF, Obj: ip.SymObj("hw", pt.Elem()), T: pt.Elem()}
+			} else {
+				recv = ip.Load(&absint.State{Heap: absint.NewHeap(nil)}, &absint.Ptr{Obj: ip.SymObj("hw", r.t)}, r.t)
+			}
+			o := ip.Ops
+			off := o.Add(absint.NewConst(32, uint64(r.lo), false), absint.NewSym(32, ip.In.Atom("off", 16, uint64(r.hi-r.lo)), false))
+			addr := o.Or(o.Shl(absint.NewSym(32, ip.In.Atom("bank", 8, 0xFF), false), absint.NewConst(32, 16, false)), off)
+			args := []absint.Val{recv, addr}
+			if mn == "Write" {
+				args = append(args, absint.NewSym(8, ip.In.Atom("value", 8, 0xFF), false))
+			}
+			_, out := ip.Call(fn, args, nil, &absint.State{Heap: absint.NewHeap(nil)})
+			msg := ""
+			for _, e := range ip.Events {
+				if e.Kind == "index-range" || e.Kind == "panic" || e.Kind == "fatal" {
+					msg = fmt.Sprintf("%s at %s (%s) for an offset in $%04X-$%04X", e.Kind, ctx.Prog.Pos(e.Pos), e.Callee, r.lo, r.hi)
+				}
+			}
+			switch {
+			case len(ip.Imprec) > 0:
+				R.Fail("io-stub", key, ctx.Prog.Pos(fn.Pos()), fmt.Sprintf("not interpretable: %v", ip.Imprec))
+			case out == nil:
+				R.Fail("io-stub", key, ctx.Prog.Pos(fn.Pos()), "does not return")
+			case msg != "":
+				R.Fail("io-stub", key, ctx.Prog.Pos(fn.Pos()), msg)
+			default:
+				R.Pass("io-stub", key, ctx.Prog.Pos(fn.Pos()), fmt.Sprintf("every offset $%04X-$%04X of every bank is served in range", r.lo, r.hi))
+			}
 		}
 	}
 }
